@@ -10,7 +10,12 @@ import (
 
 // Base carries the ledger entry of a harness-made service instance. It has
 // non-zero size so that pointer identity is a usable observable.
-type Base struct{ E *Entry }
+type Base struct {
+	E    *Entry
+	Held []any // what the instance keeps alive (its arguments), when World.HoldArgs is set
+}
+
+func (b *Base) hold(v any) { b.Held = append(b.Held, v) }
 
 func (b *Base) Ent() *Entry     { return b.E }
 func (b *Base) SetEnt(e *Entry) { b.E = e }
@@ -23,6 +28,7 @@ func (b *Base) IsI3()           {}
 type Svc interface {
 	Ent() *Entry
 	SetEnt(*Entry)
+	hold(any)
 }
 
 type I0 interface {
